@@ -17,7 +17,7 @@ def declare(reg):
         },
         modifies=["self.uid_vv", "Database.g_uid_vv"],
         is_async=True,
-        props=["C02"],
+        props=["C02", "C11"],
         ghost={"harness": "harness.e2e:UidValidity"},
     )
     reg.properties.setdefault("C02", {}).setdefault("bounded", []).append(
